@@ -112,6 +112,7 @@ func lintRun(cmd *cobra.Command, args []string) error {
 	fmt.Fprint(outWriter, output)
 
 	// Apply auto-fix if requested
+	writeFailures := 0
 	if lintAutoFix && result.TotalViolations > 0 {
 		fmt.Fprintln(outWriter, "\nApplying auto-fixes...")
 		fixCount := 0
@@ -159,6 +160,7 @@ func lintRun(cmd *cobra.Command, args []string) error {
 
 				if err := writeFileAtomic(fileResult.Filename, []byte(fixed), perm); err != nil {
 					fmt.Fprintf(cmd.ErrOrStderr(), "Error writing %s: %v\n", fileResult.Filename, err)
+					writeFailures++
 					continue
 				}
 				fixCount++
@@ -211,6 +213,10 @@ func lintRun(cmd *cobra.Command, args []string) error {
 
 	if fileErrorCount > 0 {
 		return fmt.Errorf("%d file(s) had errors", fileErrorCount)
+	}
+	if writeFailures > 0 {
+		// a rewrite that was asked for and did not happen is a failure of the run
+		return fmt.Errorf("%d file(s) could not be rewritten", writeFailures)
 	}
 	if errorCount > 0 || (lintFailOnWarn && warningCount > 0) {
 		return fmt.Errorf("%d error(s) and %d warning(s) found", errorCount, warningCount)
